@@ -20,6 +20,8 @@ def make(family, rng, tier):
     if family == "behav":
         return tracecmp.gen_behav(rng, tier)
     scn = {"kind": family, "tps": rng.choice([1, 2, 4, 8, 16, 64, 1024]), "pipes": tracecmp.gen_pipes14(rng)}
+    if family == "r2w" and rng.random() < 0.15:
+        scn["col_order"] = rng.choice(["reversed", "arrival_last", "id_last"])     # the reader goes by header names
     if family == "corrupt":
         scn["corruption"] = rng.choice(tracecmp.CORRUPTIONS)
         scn["target"] = rng.randrange(len(scn["pipes"]))
